@@ -18,11 +18,19 @@ type FuncReport struct {
 	Decls       []string
 	Global      []Term
 	Replay      *ReplayInfo
+	D           *Decls
+	Reveal      map[string]bool
 }
 
 // VerifyFunc generates all obligations for one function under contract.
 func VerifyFunc(w *World, key string, c *Contract) (rep *FuncReport) {
-	rep = &FuncReport{Key: key}
+	rep = &FuncReport{Key: key, Reveal: map[string]bool{}}
+	for _, r := range c.Reveal {
+		rep.Reveal[r] = true
+	}
+	for _, r := range c.RevealAsserts {
+		rep.Reveal["assert:"+r] = true
+	}
 	in := NewInterp(w)
 	in.topKey = key
 	defer func() {
@@ -39,6 +47,7 @@ func VerifyFunc(w *World, key string, c *Contract) (rep *FuncReport) {
 		}
 		sort.Strings(rep.Assumes)
 		rep.Decls = in.D.lines
+		rep.D = in.D
 		rep.Global = in.global
 		rep.Paths = in.pathCnt
 		for _, o := range rep.Obligations {
@@ -329,7 +338,10 @@ func (f *Frame) sameContent(a, b Val, skip map[string]bool, env *SpecEnv) Term {
 
 // VerifyLemma turns a lemma into one obligation.
 func VerifyLemma(w *World, lm *Lemma) *FuncReport {
-	rep := &FuncReport{Key: "L:" + lm.Name}
+	rep := &FuncReport{Key: "L:" + lm.Name, Reveal: map[string]bool{}}
+	for _, r := range lm.Reveal {
+		rep.Reveal[r] = true
+	}
 	in := NewInterp(w)
 	in.topKey = rep.Key
 	defer func() {
@@ -342,6 +354,7 @@ func VerifyLemma(w *World, lm *Lemma) *FuncReport {
 		}
 		rep.Obligations = in.obls
 		rep.Decls = in.D.lines
+		rep.D = in.D
 		rep.Global = in.global
 		for a := range in.assumes {
 			rep.Assumes = append(rep.Assumes, a)
@@ -353,9 +366,25 @@ func VerifyLemma(w *World, lm *Lemma) *FuncReport {
 	}()
 	st := &State{store: map[*Cell]Val{}, ghost: map[string]Val{}}
 	env := &SpecEnv{in: in, st: st, vars: map[string]Val{}, pkgPath: lm.Pkg, lets: map[string]SExpr{}}
+	var hyps []Term
+	for _, u := range lm.Uses {
+		found := false
+		for _, other := range w.Lemmas {
+			if other.Name == u && other.Pkg == lm.Pkg {
+				hyps = append(hyps, env.evalBool(other.E))
+				found = true
+				if other.Axiom {
+					in.note("axiom (trusted lemma): " + other.Name)
+				}
+			}
+		}
+		if !found {
+			panic(&Unsupported{Msg: "lemma " + lm.Name + " uses unknown lemma " + u})
+		}
+	}
 	goal := env.evalBool(lm.E)
 	in.obls = append(in.obls, &Obligation{Name: "L:" + lm.Name, Func: rep.Key, Kind: "lemma", Pos: w.Fset.Position(0),
-		Goal: goal, Text: lm.Text, Lemma: true})
+		Hyps: hyps, Goal: goal, Text: lm.Text, Lemma: true})
 	return rep
 }
 
